@@ -557,7 +557,7 @@ const c09Rule = "non-trivial = distinct (region boundary layout, lookup API, arg
 func TestVerifC09Static(t *testing.T) {
 	r := vrep.New("C09", "c09-core-static", "static topologies, caches in every start state (cold / holes + cached unbounded last region / partially invalidated / TTL-expired), fresh PD: clauses (1)-(3) incl. strict sortedness, (5); "+c09Rule)
 	defer r.Finish(t)
-	r.Assume("mocktikv.Cluster epochs are fixed up by the harness to TiKV's rules (split: both halves parent.version+1 and parent's conf_ver; merge: max+1); mocktikv itself starts a split-off region at version 1")
+	r.Assume("region epochs follow TiKV's rules (split: both halves parent.version+1 and parent's conf_ver; merge: max+1); the harness enforces them on the mocktikv.Cluster under the cluster lock (a no-op on trees whose mocktikv already follows them)")
 	r.Assume("the PD interposer (harness code, c09_world.go) implements GetRegion/GetPrevRegion/GetRegionByID/ScanRegions/BatchScanRegions over complete topology snapshots; regions always have a leader")
 	mvcc := mocktikv.MustNewMVCCStore()
 	defer mvcc.Close()
